@@ -482,3 +482,112 @@ Lemma skip_empty_pair_refuted :
   nth 1 (run_store_seen [] (e2e_actions watch_step false None (map dir_load [shop_pair_v1; shop_pair_empty]) (bs "shop.example") true)) SNone
     = SCert rel_v1_cert.
 Proof. vm_compute. repeat split. Qed.
+
+(* ================= the configured path leads through symbolic links ================= *)
+(* spec: what the configured path reads as at one moment is what the place it denotes AT THAT
+   MOMENT reads as - nothing there: nothing; not a directory: that one entry; a directory:
+   its view.  Where the path led earlier does not occur. *)
+Definition root_view (r : rootview) : load :=
+  match r with
+  | RAbsent => Loaded (Some [])
+  | RFile name e => dir_view [(name, e)]
+  | RDir d => dir_view d
+  end.
+Definition world_view (w : world) : load := root_view (denoted w).
+Lemma root_load_view r : root_load r = root_view r.
+Proof. destruct r; cbn [root_load root_view]; [reflexivity| |]; apply dir_load_view. Qed.
+Lemma path_load_view w : path_load w = world_view w.
+Proof. apply root_load_view. Qed.
+(* for every history of file trees - whichever links on the path were re-pointed between the
+   polls, whatever happened at the places the path does not lead to - the handshake after
+   every poll is answered from the last tree of the prefix in which the place the path denoted
+   THEN read as a usable set *)
+Lemma path_history ws n s :
+  run_store_seen [] (e2e_actions watch_step false None (map path_load ws) n s) =
+  map (fun k => seen_on (last_good [] (firstn (S k) (map world_view ws))) n s) (seq 0 (length ws)).
+Proof.
+  rewrite (e2e_seen (map path_load ws) None [] n s I), map_length.
+  apply map_ext. intros k. do 3 f_equal. apply map_ext, path_load_view.
+Qed.
+Lemma path_last ws w n s :
+  nth (length ws) (run_store_seen [] (e2e_actions watch_step false None (map path_load (ws ++ [w])) n s)) SNone
+  = seen_on (last_good [] (map world_view (ws ++ [w]))) n s.
+Proof.
+  rewrite path_history.
+  assert (L : length (ws ++ [w]) = S (length ws)) by (rewrite app_length; cbn; lia).
+  rewrite nth_map_seq by lia.
+  rewrite firstn_all2; [reflexivity|]. rewrite map_length. lia.
+Qed.
+(* the path re-pointed to a directory that reads as a usable set: that set answers the next
+   handshake, wherever the path led before *)
+Lemma path_switch_takes_effect ws w d set n s :
+  denoted w = RDir d -> usable (dir_view d) = Some set ->
+  nth (length ws) (run_store_seen [] (e2e_actions watch_step false None (map path_load (ws ++ [w])) n s)) SNone
+  = seen_on set n s.
+Proof.
+  intros D U. rewrite path_last, map_app, last_good_app. cbn [map last_good].
+  unfold world_view. rewrite D. cbn [root_view]. now rewrite U.
+Qed.
+(* ... to nothing, or to a directory that does not: the working set stays *)
+Lemma path_to_unusable_keeps_set ws w n s :
+  usable (world_view w) = None ->
+  nth (length ws) (run_store_seen [] (e2e_actions watch_step false None (map path_load (ws ++ [w])) n s)) SNone
+  = seen_on (last_good [] (map world_view ws)) n s.
+Proof.
+  intros U. rewrite path_last, map_app, last_good_app. cbn [map last_good]. now rewrite U.
+Qed.
+Lemma path_to_nothing_unusable w : denoted w = RAbsent -> usable (world_view w) = None.
+Proof. intros D. unfold world_view. rewrite D. vm_compute. reflexivity. Qed.
+(* a load looks at the place the path denotes now and at no other: the release left behind
+   may be rewritten or removed *)
+Lemma path_load_ignores_other_places w t :
+  (forall k, w_at w = Some k -> tree_find t k = tree_find (w_tree w) k) ->
+  path_load {| w_at := w_at w; w_tree := t |} = path_load w.
+Proof.
+  intros H. unfold path_load, denoted. cbn [w_at w_tree].
+  destruct (w_at w) as [k|]; [|reflexivity]. now rewrite (H k eq_refl).
+Qed.
+
+(* <base>/current/certs with current -> releases/v1, then current -> releases/v2 while v1 is
+   left as it was; then v1 rewritten (no effect), then current dangling (set kept) *)
+Definition rel1_files : dirstate :=
+  [(bs "shop-cert.pem", reg 640 5 (pf 1 (Some (7, rel_v1_cert)) None));
+   (bs "shop-key.pem", reg 227 5 (pf 2 None (Some 7)))].
+Definition rel2_files : dirstate :=
+  [(bs "shop-cert.pem", reg 641 6 (pf 3 (Some (7, rel_v2_cert)) None));
+   (bs "shop-key.pem", reg 227 6 (pf 2 None (Some 7)))].
+Definition rel_v3_cert : cert := [bs "shop.example"; bs "v3.shop.example"].
+Definition rel1_rewritten : dirstate :=
+  [(bs "shop-cert.pem", reg 640 7 (pf 5 (Some (7, rel_v3_cert)) None));
+   (bs "shop-key.pem", reg 227 7 (pf 2 None (Some 7)))].
+Definition path_switch_history : list world :=
+  [ {| w_at := Some 1; w_tree := [(1, RDir rel1_files)] |};
+    {| w_at := Some 2; w_tree := [(1, RDir rel1_files); (2, RDir rel2_files)] |};
+    {| w_at := Some 2; w_tree := [(1, RDir rel1_rewritten); (2, RDir rel2_files)] |};
+    {| w_at := None; w_tree := [(1, RDir rel1_rewritten); (2, RDir rel2_files)] |};
+    {| w_at := Some 1; w_tree := [(1, RDir rel1_rewritten); (2, RDir rel2_files)] |} ].
+Example path_switch_example :
+  denoted (nth 1 path_switch_history {| w_at := None; w_tree := [] |}) = RDir rel2_files /\
+  usable (dir_view rel2_files) = Some [rel_v2_cert] /\
+  run_store_seen [] (e2e_actions watch_step false None (map path_load path_switch_history) (bs "shop.example") true)
+  = [SCert rel_v1_cert; SCert rel_v2_cert; SCert rel_v2_cert; SCert rel_v2_cert; SCert rel_v3_cert] /\
+  (* the last element of the path is itself a symbolic link: filepath.Walk does not follow it *)
+  path_load {| w_at := Some 0; w_tree := [(0, RFile (bs "certs") {| d_kind := KSymlink; d_size := 17; d_mtime := 1; d_read := None |});
+                                           (1, RDir rel1_files)] |} = Loaded (Some []).
+Proof. repeat split; vm_compute; reflexivity. Qed.
+(* a source that resolves the path once, when it is created, does not have the property: the
+   switch to v2 never takes effect (and a rewrite of the release left behind does) *)
+Lemma pinned_path_refuted :
+  exists ws w d set n s,
+    denoted w = RDir d /\ usable (dir_view d) = Some set /\
+    nth (length ws) (run_store_seen [] (e2e_actions watch_step false None (pinned_loads (ws ++ [w])) n s)) SNone
+      <> seen_on set n s /\
+    nth (length ws) (run_store_seen [] (e2e_actions watch_step false None (map path_load (ws ++ [w])) n s)) SNone
+      = seen_on set n s.
+Proof.
+  exists [ {| w_at := Some 1; w_tree := [(1, RDir rel1_files)] |} ],
+         {| w_at := Some 2; w_tree := [(1, RDir rel1_files); (2, RDir rel2_files)] |},
+         rel2_files, [rel_v2_cert], (bs "shop.example"), true.
+  split; [reflexivity|]. split; [vm_compute; reflexivity|].
+  split; [vm_compute; discriminate|vm_compute; reflexivity].
+Qed.
